@@ -27,6 +27,9 @@ var pointCodecDirs = []string{"ecc/bn254", "ecc/grumpkin", "ecc/stark-curve", "e
 // packages whose G2 coordinates are base-field elements (the G2 text is the G1 text with the twist coefficient): G2 is translated too
 var pcG2Fp = map[string]bool{"ecc/bw6-633": true, "ecc/bw6-761": true}
 
+// packages whose G2 coordinates are tower elements (E2 / E4): G2 is translated with component access through `Comps`
+var pcG2Tower = map[string]bool{"ecc/bn254": true, "ecc/bls12-377": true, "ecc/bls12-381": true, "ecc/bls24-315": true, "ecc/bls24-317": true}
+
 type pcKind int
 
 const (
@@ -54,6 +57,7 @@ type pcCtx struct {
 	retKind string // "set", "res", "bool"
 	errVar  string // name bound by `if err := …SetBytesCanonical`
 	joins   int
+	tower   bool // the group's coordinates are tower elements (G2 over Fp2 / Fp4): component access through `Comps`
 	retType string
 }
 
@@ -324,6 +328,29 @@ func (c *pcCtx) elemExpr(e ast.Expr) string {
 	return ""
 }
 
+// compPath: `p.X.A1`, `p.Y.B1.A0` → the coordinate variable ("pX") and the component path ("A1", "B1.A0") of a tower coordinate
+func (c *pcCtx) compPath(e ast.Expr) (string, string, bool) {
+	var path []string
+	for {
+		sel, ok := e.(*ast.SelectorExpr)
+		if !ok {
+			return "", "", false
+		}
+		if x, ok := sel.X.(*ast.Ident); ok && x.Name == "p" && (sel.Sel.Name == "X" || sel.Sel.Name == "Y") {
+			if len(path) == 0 || !c.tower {
+				return "", "", false
+			}
+			return "p" + sel.Sel.Name, strings.Join(path, "."), true
+		}
+		nm := sel.Sel.Name
+		if nm != "A0" && nm != "A1" && nm != "B0" && nm != "B1" {
+			return "", "", false
+		}
+		path = append([]string{nm}, path...)
+		e = sel.X
+	}
+}
+
 func (c *pcCtx) boolExpr(e ast.Expr, g *[]string) string {
 	switch v := e.(type) {
 	case *ast.Ident:
@@ -347,6 +374,16 @@ func (c *pcCtx) boolExpr(e ast.Expr, g *[]string) string {
 			return "(" + c.boolExpr(v.X, g) + " " + op + " " + c.boolExpr(v.Y, nil) + ")"
 		case token.EQL, token.NEQ:
 			op := map[token.Token]string{token.EQL: "==", token.NEQ: "!="}[v.Op]
+			if call, ok := v.X.(*ast.CallExpr); ok && c.tower {
+				if sel, ok := call.Fun.(*ast.SelectorExpr); ok && sel.Sel.Name == "Legendre" && len(call.Args) == 0 {
+					if u, ok := v.Y.(*ast.UnaryExpr); ok && u.Op == token.SUB {
+						if k, ok := c.evalInt(u.X); ok {
+							return fmt.Sprintf("(Q.legendre %s %s (-%d : Int))", c.elemExpr(sel.X), op, k)
+						}
+					}
+					c.die(e, "Legendre compared with a non-constant")
+				}
+			}
 			kx, ky := c.kindOf(v.X), c.kindOf(v.Y)
 			if kx == pcByte || ky == pcByte {
 				return "(" + c.byteExpr(v.X, g) + " " + op + " " + c.byteExpr(v.Y, g) + ")"
@@ -482,6 +519,9 @@ func (c *pcCtx) chain(e ast.Expr) string {
 		rhs = "P.zero"
 	case sel.Sel.Name == "Square" && len(call.Args) == 1:
 		rhs = "P.square " + c.elemExpr(call.Args[0])
+	case sel.Sel.Name == "Sqrt" && len(call.Args) == 1 && c.tower:
+		// the tower Sqrt is called after the Legendre test and its result is not inspected
+		rhs = "Q.sqrtU " + c.elemExpr(call.Args[0])
 	case sel.Sel.Name == "Neg" && len(call.Args) == 1:
 		rhs = "P.neg " + c.elemExpr(call.Args[0])
 	case (sel.Sel.Name == "Mul" || sel.Sel.Name == "Add") && len(call.Args) == 2:
@@ -575,7 +615,7 @@ func (c *pcCtx) stmts(list []ast.Stmt, tail string) string {
 					}
 				}
 				if st, ok := vs.Type.(*ast.SelectorExpr); ok {
-					if x, ok := st.X.(*ast.Ident); ok && x.Name == "fp" && st.Sel.Name == "Element" {
+					if x, ok := st.X.(*ast.Ident); ok && ((!c.tower && x.Name == "fp" && st.Sel.Name == "Element") || (c.tower && x.Name == "fptower" && (st.Sel.Name == "E2" || st.Sel.Name == "E4"))) {
 						c.vars[n.Name] = &pcVar{kind: pcElem}
 						out += "let " + n.Name + " : F := P.zero;\n"
 						continue
@@ -677,7 +717,15 @@ func (c *pcCtx) stmts(list []ast.Stmt, tail string) string {
 			if n != c.ints["fp.Bytes"] {
 				c.die(s, "PutElement window is not fp.Bytes long")
 			}
-			return fmt.Sprintf("(let %s := goPutAt %s %s (P.putElement %s);\n%s)", a.Name, a.Name, c.intExpr(sl.Low), c.elemExpr(call.Args[1]), c.stmts(rest, tail))
+			var val string
+			if root, path, ok := c.compPath(call.Args[1]); ok {
+				val = "Q.put (Q.getComp " + strconv.Quote(path) + " " + root + ")"
+			} else if !c.tower {
+				val = "P.putElement " + c.elemExpr(call.Args[1])
+			} else {
+				c.die(s, "PutElement of a tower coordinate as a whole")
+			}
+			return fmt.Sprintf("(let %s := goPutAt %s %s (%s);\n%s)", a.Name, a.Name, c.intExpr(sl.Low), val, c.stmts(rest, tail))
 		}
 		return "(" + c.chain(v.X) + c.stmts(rest, tail) + ")"
 	case *ast.RangeStmt:
@@ -747,7 +795,14 @@ func (c *pcCtx) stmts(list []ast.Stmt, tail string) string {
 			if n != c.ints["fp.Bytes"] {
 				c.die(s, "SetBytesCanonical argument is not fp.Bytes long")
 			}
-			r := c.elemExpr(sel.X)
+			var r, upd, fn string
+			if root, path, ok := c.compPath(sel.X); ok {
+				r, upd, fn = root, "Q.setComp "+strconv.Quote(path)+" "+root+" v_", "Q.sbc"
+			} else if !c.tower {
+				r, upd, fn = c.elemExpr(sel.X), "v_", "P.setBytesCanonical"
+			} else {
+				c.die(s, "SetBytesCanonical on a tower coordinate as a whole")
+			}
 			if !pcHasReturn(v.Body) {
 				c.die(s, "error branch does not return")
 			}
@@ -755,7 +810,7 @@ func (c *pcCtx) stmts(list []ast.Stmt, tail string) string {
 			c.errVar = ev
 			errBranch := c.stmts(v.Body.List, "")
 			c.errVar = old
-			return c.guard(g, "(match P.setBytesCanonical "+src+" with\n| none => "+errBranch+"\n| some v_ => let "+r+" := v_;\n"+c.stmts(rest, tail)+")")
+			return c.guard(g, "(match "+fn+" "+src+" with\n| none => "+errBranch+"\n| some v_ => let "+r+" := "+upd+";\n"+c.stmts(rest, tail)+")")
 		}
 		// if R.Sqrt(&a) == nil { return … }
 		if be, ok := v.Cond.(*ast.BinaryExpr); ok && be.Op == token.EQL {
@@ -935,7 +990,7 @@ func runPointCodec() {
 						fmt.Fprintf(&b, "@[reducible] def %s : UInt8 := %d\n", n.Name, k)
 						continue
 					}
-					if (strings.HasPrefix(n.Name, "SizeOfG1") || (pcG2Fp[dir] && strings.HasPrefix(n.Name, "SizeOfG2"))) && vs.Type == nil {
+					if (strings.HasPrefix(n.Name, "SizeOfG1") || ((pcG2Fp[dir] || pcG2Tower[dir]) && strings.HasPrefix(n.Name, "SizeOfG2"))) && vs.Type == nil {
 						k, ok := c.evalInt(vs.Values[i])
 						if !ok {
 							die("pointcodec: %s: size constant %s is not evaluable", dir, n.Name)
@@ -981,10 +1036,15 @@ func runPointCodec() {
 			c.funcs[name] = true
 		}
 		groups := []string{"G1"}
-		if pcG2Fp[dir] {
+		if pcG2Fp[dir] || pcG2Tower[dir] {
 			groups = append(groups, "G2")
 		}
 		for _, grp := range groups {
+			c.tower = grp == "G2" && pcG2Tower[dir]
+			sig := "{F : Type} (P : Prims F)"
+			if c.tower {
+				sig = "{F B : Type} (P : Prims F) (Q : Comps F B)"
+			}
 			// encoders
 			for _, name := range []string{"Bytes", "RawBytes"} {
 				fd, ok := decls[grp+"."+name]
@@ -1010,7 +1070,7 @@ func runPointCodec() {
 					die("pointcodec: %s: %s: result length is not a constant", dir, name)
 				}
 				c.vars["res"] = &pcVar{kind: pcArray, n: k}
-				fmt.Fprintf(&b, "def %s_%s {F : Type} (P : Prims F) (pX pY : F) : List UInt8 :=\nlet res : List UInt8 := List.replicate %s 0;\n%s\n\n", grp, name, c.intExpr(at.Len), c.stmts(fd.Body.List, ""))
+				fmt.Fprintf(&b, "def %s_%s %s (pX pY : F) : List UInt8 :=\nlet res : List UInt8 := List.replicate %s 0;\n%s\n\n", grp, name, sig, c.intExpr(at.Len), c.stmts(fd.Body.List, ""))
 			}
 			// decoder
 			{
@@ -1038,7 +1098,7 @@ func runPointCodec() {
 				if strings.Join(names, ",") != "buf,subGroupCheck" {
 					die("pointcodec: %s: setBytes: unexpected parameters %v", dir, names)
 				}
-				fmt.Fprintf(&b, "def %s_setBytes {F : Type} (P : Prims F) (pX pY : F)%s : Except GoErr (F × F × Nat) :=\n%s\n\n", grp, ps, c.stmts(fd.Body.List, ""))
+				fmt.Fprintf(&b, "def %s_setBytes %s (pX pY : F)%s : Except GoErr (F × F × Nat) :=\n%s\n\n", grp, sig, ps, c.stmts(fd.Body.List, ""))
 				// SetBytes: `return p.setBytes(buf, true)`
 				sb, ok := decls[grp+".SetBytes"]
 				if !ok || len(sb.Body.List) != 1 {
@@ -1061,7 +1121,7 @@ func runPointCodec() {
 				if x, ok := sel.X.(*ast.Ident); !ok || x.Name != "p" || len(sb.Type.Params.List) != 1 || len(sb.Type.Params.List[0].Names) != 1 || sb.Type.Params.List[0].Names[0].Name != "buf" {
 					die("pointcodec: %s: SetBytes: unexpected receiver / parameters", dir)
 				}
-				fmt.Fprintf(&b, "def %s_SetBytes {F : Type} (P : Prims F) (pX pY : F) (buf : List UInt8) : Except GoErr (F × F × Nat) :=\n%s_setBytes P pX pY buf %s\n\n", grp, grp, a1.Name)
+				fmt.Fprintf(&b, "def %s_SetBytes %s (pX pY : F) (buf : List UInt8) : Except GoErr (F × F × Nat) :=\n%s_setBytes P %spX pY buf %s\n\n", grp, sig, grp, map[bool]string{true: "Q ", false: ""}[c.tower], a1.Name)
 			}
 		}
 		fmt.Fprintf(&b, "end GV.Gen.PointCodec.%s\n", ln)
